@@ -339,8 +339,6 @@ func observeMember(le *endpoint.LbEndpoint) memberObs {
 
 // ---------------------------------------------------------------- generator
 
-const findingK12 = "K12-locality-weight-wraps-after-network-filter"
-
 func genClaIn(r *vlib.Rand, nWorlds int) ClaIn {
 	ci := ClaIn{Found: !r.Chance(3), DNS: r.Chance(4), Ports: [][2]int{{80, 1}, {81, 2}}, Port: 80, Inference: r.Chance(6),
 		ClusterLocal: r.Chance(15), NodeLocal: r.Chance(10), Persistent: r.Chance(25), DefaultUnh: !r.Chance(35),
@@ -503,21 +501,19 @@ func genCla(t *testing.T, c *vlib.Collector, seed uint64, id *int) {
 		}
 		if sum >= 1<<32 {
 			tags = append(tags, "cla-weight-sum-over-2^32")
-			if len(w.gws) > 0 {
-				c.FindingOf[*id] = findingK12
-			}
 		}
 		c.Add(vlib.Case{ID: *id, Term: vlib.App("Cla", vlib.NI(*id), gClaIn(ci, w, shards), obs), Tags: tags,
 			Trivial: !(served > 0 && served < total), Sample: map[string]any{"kind": "cla", "input": ci, "observed": obs}})
 	}
-	// K12 witness: two endpoints of weight 2^31 on a remote network behind one gateway
+	// former K12 (fixed in /repo c539934): two endpoints of weight 2^31 on a remote network behind one gateway;
+	// locality and gateway weights must saturate exactly like the single-network path
 	k12 := ClaIn{Found: true, Ports: [][2]int{{80, 1}}, Port: 80, DefaultUnh: true, PNet: 1, PCluster: 1, PNode: 1, World: 1, InIndex: true,
 		Shards: []Shard{{K: SKey{1, 2}, Eps: []EP{
 			{Wl: 1, Addr: 1, Port: 1, EPort: 8080, Weight: 1 << 31, Net: 2, Cluster: 2, Loc: 1, TLS: true, Node: 1},
 			{Wl: 1, Addr: 2, Port: 1, EPort: 8080, Weight: 1 << 31, Net: 2, Cluster: 2, Loc: 1, TLS: true, Node: 1}}}}}
 	emit(k12, "scenario=k12-gateway")
 	k12b := k12
-	k12b.PNet = 2 // same network: both endpoints stay direct members, locality weight is re-summed with +=
+	k12b.PNet = 2 // same network: both endpoints stay direct members, locality weight is re-summed by refreshWeight
 	emit(k12b, "scenario=k12-direct")
 	k12c := k12
 	k12c.World = 0 // single network: generate's saturating sum is what is sent
